@@ -7,6 +7,9 @@ CONSTANTS
   RawLen = 0
   Depths = {3}
   Ladders = {3, 24}
-  Devs = {"SelfImportDoubling", "ImportLadder", "EmptyMacroEmbed"}
+  MacroCloses = {}
+  SnipDeeps = {}
+  FileChains = {}
+  Devs = {"SelfImportDoubling", "ImportLadder", "EmptyMacroEmbed", "MacroCloseNesting", "DeepImportTree"}
 INVARIANTS ModelHolds
 CHECK_DEADLOCK FALSE
